@@ -20,13 +20,25 @@ NA = {
 }
 
 # id -> (level, technique, level text, level note, design ref)
+SIM = "deterministic simulation with fault injection: "
 CHECKS = {
-    "C04": ("exploration", "deterministic simulation: seeded call histories on a simulated connection, differential oracle + deadlock detection",
+    "C01": ("exploration", SIM + "generated programs run on simulated pipe/unix/tcp connections and a simulated HTTP cluster, differential vs reference model",
+            "Seeded search over generated service definitions, behaviours and call scripts; each program runs on two pipe-family legs "
+            "(with drawn short-read/short-write policies) and 2-3 HTTP configurations (cap x compression x externalisation x prefix); every "
+            "leg must match an executable reference model and all legs must agree. Sampling, not proof.",
+            "real RpcServer/_wire/_client/transports/Falcon app/_state_token/HttpStreamSession; byte channels, WSGI invocation, storage and tenacity are stubs",
+            "DESIGN.md §5 C01"),
+    "C04": ("exploration", SIM + "seeded call histories on a simulated connection, differential oracle + deadlock detection",
             "Seeded search over call histories (every outcome kind at every position) on one simulated pipe/unix/tcp connection "
             "with drawn short-read/short-write policies; each call's trace must equal the trace of the same call alone on a fresh "
             "connection, the scheduler reports hangs, channels must be empty at the end. Sampling, not proof.",
             "real RpcServer/_wire/_client/transports over simulated byte channels; pyarrow is a black box; OS pipes/sockets and Popen are stubs",
             "DESIGN.md §5 C04"),
+    "C23": ("exploration", SIM + "2-3 simulated threads on one real NonceCache, line-level pre-emption, virtual clock, linearizability check of the history",
+            "Seeded schedules (PCT-style pre-emption inside _replay.py, clock advances) of 2-3 threads submitting overlapping nonces; the "
+            "recorded invoke/return history is checked for linearizability against a sequential model and for the capacity bound.",
+            "real NonceCache; threading/time re-pointed to the simulator; line-granular (not bytecode-granular) pre-emption",
+            "DESIGN.md §5 C23"),
 }
 
 manifest = {
